@@ -1,6 +1,6 @@
 (* Wire entry points of the C01 model (combination scheme). *)
 From Coq Require Import ZArith List Bool.
-From SG Require Import Base.Sx Model.CombiScheme.
+From SG Require Import Base.Sx Model.CombiScheme Model.CombiSchemeObj.
 Import ListNotations.
 Open Scope Z_scope.
 
@@ -18,7 +18,52 @@ Fixpoint run_ops (s : scheme) (ops : list lv) : list sx :=
   | l :: r => let '(ret, s') := update_scheme s l in of_state ret s' :: run_ops s' r
   end.
 
-(* sub 0: (dim lmax lmin (op ...)) -> (state0 state1 ...) ; sub 1: (dim lmin lmax) -> closed form *)
+(* ---- histories of public requests on ONE object (Model/CombiSchemeObj.v) ----
+   op encoding: (0 lmax lmin) init_adaptive_combi_scheme | (1 lmax lmin) init_full_grid | (2 l) update_adaptive_combi |
+   (3 lmin lmax) getCombiScheme | (4) get_index_set | (5) get_active_indices | (6 l) is_refinable |
+   (7 l) has_forward_neighbour | (8 l) in_index_set | (9 l) is_old_index | (10 l) extendable_level *)
+Definition get_op (a : sx) : option op :=
+  match a with
+  | Lv [Zv 0; Zv lmax; Zv lmin] => Some (OpInit lmax lmin)
+  | Lv [Zv 1; Zv lmax; Zv lmin] => Some (OpFull lmax lmin)
+  | Lv [Zv 3; Zv lmin; Zv lmax] => Some (OpGet lmin lmax)
+  | Lv [Zv 4] => Some OpIndexSet
+  | Lv [Zv 5] => Some OpActive
+  | Lv [Zv t; l] =>
+      match get_LZ l with
+      | Some l =>
+          match t with
+          | 2 => Some (OpUpdate l) | 6 => Some (OpRefinable l) | 7 => Some (OpForward l)
+          | 8 => Some (OpInSet l) | 9 => Some (OpOld l) | 10 => Some (OpExtendable l)
+          | _ => None
+          end
+      | None => None
+      end
+  | _ => None
+  end.
+
+(* result encoding: (0) raised | (1) None | (2 dims|-1) | (3 coeffs) | (4 set) | (5 bool) | (6 bool dim) *)
+Definition of_result (r : result) : sx :=
+  match r with
+  | R_exc => Lv [Zv 0]
+  | R_unit => Lv [Zv 1]
+  | R_dims None => Lv [Zv 2; Zv (-1)]
+  | R_dims (Some ds) => Lv [Zv 2; of_LZ (map Z.of_nat ds)]
+  | R_coeffs cs => Lv [Zv 3; of_coeffs cs]
+  | R_set st => Lv [Zv 4; of_LLZ st]
+  | R_bool b => Lv [Zv 5; sx_bool b]
+  | R_ext b d => Lv [Zv 6; sx_bool b; Zv d]
+  end.
+
+(* (result active old lmax_adaptive); a not initialised object shows empty sets and -1 *)
+Definition of_step (ro : result * obj) : sx :=
+  match o_st (snd ro) with
+  | None => Lv [of_result (fst ro); Lv []; Lv []; Zv (-1)]
+  | Some s => Lv [of_result (fst ro); of_LLZ (s_active s); of_LLZ (s_old s); Zv (s_lmax_adaptive s)]
+  end.
+
+(* sub 0: (dim lmax lmin (op ...)) -> (state0 state1 ...) ; sub 1: (dim lmin lmax) -> closed form ;
+   sub 2: (dim (op ...)) -> one (result active old lmax_adaptive) per request on ONE object *)
 Definition entry_C01 (sub : Z) (a : sx) : sx :=
   match sub, a with
   | 0, Lv [Zv dim; Zv lmax; Zv lmin; ops] =>
@@ -28,5 +73,10 @@ Definition entry_C01 (sub : Z) (a : sx) : sx :=
     | None, _ => sx_err 2
     end
   | 1, Lv [Zv dim; Zv lmin; Zv lmax] => of_coeffs (combi_scheme_standard (Z.to_nat dim) lmin lmax)
+  | 2, Lv [Zv dim; Lv ops] =>
+    match opt_all (map get_op ops) with
+    | Some ops => Lv (map of_step (run (fresh_obj (Z.to_nat dim)) ops))
+    | None => sx_err 2
+    end
   | _, _ => sx_err 0
   end.
